@@ -807,10 +807,14 @@ def run(ctx):
             t, idx = project_spend(c, j)
             terms.append(t)
             back.append((ri, "spend", j, idx))
-    ok, bad, logs = coq_mismatches(ctx.uid(), IMPORTS, terms,
-                                   shard=max(40, len(terms) // NCPU + 1))
-    mok, mbad, mlogs = coq_mismatches(ctx.uid() + "m", MIMPORTS, mterms, mism="mmismatches",
-                                      shard=max(20, len(mterms) // NCPU + 1))
+    from concurrent.futures import ThreadPoolExecutor
+    with ThreadPoolExecutor(max_workers=2) as ex:
+        f1 = ex.submit(coq_mismatches, ctx.uid(), IMPORTS, terms,
+                       shard=max(40, len(terms) // NCPU + 1))
+        f2 = ex.submit(coq_mismatches, ctx.uid() + "m", MIMPORTS, mterms, mism="mmismatches",
+                       shard=max(20, len(mterms) // NCPU + 1))
+        ok, bad, logs = f1.result()
+        mok, mbad, mlogs = f2.result()
     if not ok or not mok:
         ctx.violation("correspondence_mismatch", "Notifier.Exec (model evaluation failed)",
                       {"logs": logs + mlogs}, signature="model-eval", failing_input=False)
